@@ -359,8 +359,8 @@ def judgeStep (s : JudgeSt) (op out : String) : JudgeSt :=
 
 def firstBad (cfg : Cfg) (h : List Ev) : String :=
   let checks : List (String × (List Ev → Ev → Bool)) :=
-    [("one-verdict", verdictOk), ("quota", quotaOk), ("priority", prioOk cfg), ("ttl", ttlOk cfg),
-     ("fifo", fifoOk cfg), ("bound", boundOk cfg), ("no-panic", noPanic)]
+    [("one-verdict", verdictOk), ("quota", quotaOk), ("priority", prioOk cfg), ("ttl-early", ttlLowerOk cfg),
+     ("ttl-late", ttlUpperOk cfg), ("fifo", fifoOk cfg), ("bound", boundOk cfg), ("no-panic", noPanic)]
   let rec go (older : List Ev) : List Ev → Option String
     | [] => none
     | e :: rest =>
